@@ -217,6 +217,9 @@ func TestVfC10Rules(t *testing.T) {
 					r.set = coveredSets[rapid.IntRange(0, len(coveredSets)-1).Draw(t, "which")]
 				}
 				r.reverse = rapid.IntRange(0, 2).Draw(t, "reverse") == 0
+			} else if rapid.IntRange(0, 3).Draw(t, "reverseWithoutDomain") == 0 {
+				// `reverse` negates a domain condition; a rule without one has nothing to negate and always holds
+				r.reverse = true
 			}
 			switch rapid.IntRange(0, 5).Draw(t, "action") {
 			case 0:
